@@ -37,6 +37,8 @@ func schedScenarios(prop, tier string) []*Scenario {
 		return c17Scenarios(tier)
 	case "C12":
 		return c12Scenarios(tier)
+	case "C15":
+		return c15Scenarios(tier)
 	}
 	return nil
 }
@@ -163,6 +165,16 @@ func raceScenarios(prop, tier string) []*Scenario {
 		return c14RaceScenarios(tier)
 	case "C09":
 		return c09RaceScenarios(tier)
+	case "C10":
+		return c10RaceScenarios(tier)
+	case "C11":
+		return c11RaceScenarios(tier)
+	case "C15":
+		return c15RaceScenarios(tier)
+	case "C18":
+		return c18RaceScenarios(tier)
+	case "C20":
+		return c20RaceScenarios(tier)
 	}
 	return nil
 }
@@ -182,8 +194,8 @@ func runRace(prop, tier, name string, budget time.Duration) *WorkerResult {
 	if budget <= 0 || budget > 40*time.Second {
 		budget = 40 * time.Second
 	}
-	if tier != "thorough" && budget > 16*time.Second {
-		budget = 16 * time.Second
+	if tier != "thorough" && budget > 10*time.Second {
+		budget = 10 * time.Second
 	}
 	share := budget / time.Duration(len(all)+1)
 	for _, sc := range all {
